@@ -1058,6 +1058,11 @@ impl PageCache {
         let page_idx = offset / self.config.page_size;
         let key = (path.to_path_buf(), page_idx);
 
+        // A cache of zero pages holds nothing (every access misses).
+        if self.config.max_pages == 0 {
+            return;
+        }
+
         // Evict oldest if at capacity
         while self.pages.len() >= self.config.max_pages {
             self.pages.shift_remove_index(0);
